@@ -72,6 +72,52 @@ pub struct S2Obs {
     pub foreign_unmaps: u64,
     pub writable_pages: Vec<Vec<u64>>,
     pub around_changed: bool,
+    /// per install: where control ends up when the entry is followed right after the install
+    pub dest: Vec<Option<Dest>>,
+}
+
+#[derive(Clone, Debug)]
+pub struct Dest {
+    /// "branch" (value = destination), "ret" (value = x0 / rax) or "unknown"
+    pub kind: &'static str,
+    pub value: Option<u64>,
+    pub trace: Vec<String>,
+    pub written: Vec<u8>,
+    pub touched_sp: bool,
+}
+
+/// Follow the freshly patched entry through the trampoline (memory as it is right now).
+fn decode_now(variant: Variant, target: u64, entry: u64, fake: u64) -> Dest {
+    let m = RealMem;
+    match variant {
+        Variant::Arm64 => {
+            let out = a64_run(&m, entry, 12);
+            let (kind, value) = match &out.end {
+                A64End::Br { value, .. } => ("branch", *value),
+                A64End::Ret { .. } => ("ret", out.regs[0]),
+                _ => ("unknown", None),
+            };
+            Dest { kind, value, trace: out.trace.clone(), written: out.written.iter().copied().collect(), touched_sp: out.touched_sp }
+        }
+        Variant::Arm => {
+            let out = arm_run(&m, entry as u32, if target & 1 == 1 { ArmState::T32 } else { ArmState::A32 }, 6);
+            let (kind, value) = match &out.end {
+                ArmEnd::Bx { value, .. } => ("branch", value.map(|v| v as u64)),
+                ArmEnd::LoadPc { value, .. } => ("branch", Some(*value as u64)),
+                _ => ("unknown", None),
+            };
+            Dest { kind, value, trace: out.trace.clone(), written: out.written.iter().copied().collect(), touched_sp: false }
+        }
+        Variant::Amd64 => {
+            let out = x86_follow(&m, entry, &[fake], 8);
+            let (kind, value) = match &out.end {
+                X86End::Arrived { at } => ("branch", Some(*at)),
+                X86End::Ret { rax, .. } => ("ret", *rax),
+                _ => ("unknown", None),
+            };
+            Dest { kind, value, trace: out.trace.clone(), written: vec![], touched_sp: false }
+        }
+    }
 }
 
 fn ensure_region() -> bool {
@@ -125,9 +171,11 @@ macro_rules! runner {
                     Ok(g) => {
                         guards.push(g);
                         o.installed.push(true);
+                        o.dest.push(Some(decode_now(c.variant, c.target, entry, c.fake.wrapping_add(16 * k as u64) | (c.fake & 1))));
                     }
                     Err(_) => {
                         o.installed.push(false);
+                        o.dest.push(None);
                         o.panics.push(crate::sut::last_panic());
                     }
                 }
@@ -248,14 +296,16 @@ pub fn strategy(variants: Vec<Variant>) -> impl Strategy<Value = S2Case> {
         3 => (0x0900_0000u64..0x3000_0000, prop_oneof![Just(0u64), Just(0xFFCu64), Just(0xFF8), Just(0xFF4), Just(0x10), 0u64..0x1000]).prop_map(|(p, o)| (p & !0xFFF) | (o & !3)),
         2 => (0x0002_0000u64..0x0800_0000, prop_oneof![Just(0u64), 0u64..0x1000]).prop_map(|(p, o)| (p & !0xFFF) | (o & !3)),
     ];
-    (proptest::sample::select(variants), target, occupancy_strategy(), 0u8..3, -8i16..8, any::<u32>(), prop::option::weighted(0.25, any::<bool>()), prop::bool::weighted(0.3), 0u8..3).prop_map(|(variant, target, occupancy, fallback, near_delta, fake, boolean, twice, tb)| {
+    (proptest::sample::select(variants), target, occupancy_strategy(), 0u8..3, -8i16..8, (any::<u32>(), prop_oneof![3 => Just(0u32), 2 => any::<u32>(), 1 => Just(0xFFFF_0000u32), 1 => (0u32..0x1_0000)]), prop::option::weighted(0.25, any::<bool>()), prop::bool::weighted(0.3), 0u8..3).prop_map(|(variant, target, occupancy, fallback, near_delta, (fake, fake_hi), boolean, twice, tb)| {
         let target = match (variant, tb) {
             (Variant::Arm, 1) => target | 1,
             (Variant::Arm, 2) => (target | 2) | 1,
             (Variant::Amd64, _) => target | (tb as u64), // any byte alignment
             _ => target,
         };
-        S2Case { variant, target, occupancy, fallback, near_delta, fake: (fake as u64).max(0x1000) & !2, boolean, twice }
+        // 64-bit fakes on the 64-bit paths (incl. addresses with the top half-word set)
+        let fake = if variant == Variant::Arm { fake as u64 } else { (fake as u64) | ((fake_hi as u64) << 32) };
+        S2Case { variant, target, occupancy, fallback, near_delta, fake: fake.max(0x1000) & !2, boolean, twice }
     })
 }
 
@@ -347,6 +397,45 @@ pub fn check(rec: &mut Recorder, c: &S2Case) -> Result<(), String> {
             for p in [first, last] {
                 if !o.writable_pages[k].contains(&p) {
                     return rec.fail(&sig("page-not-made-writable"), format!("the patch wrote [{entry:#x},+{patch_len}) but page {p:#x} was never passed to mprotect(..WRITE..) (writable pages {:x?}); case {c:?}", o.writable_pages[k]));
+                }
+            }
+        }
+    }
+    // ---- C15 / C16 (and C01 on the amd64 path): followed through the trampoline, every successful
+    //      installation ends at exactly its fake (or returns exactly the forced value)
+    if matches!(prop.as_str(), "C15" | "C16" | "C01") {
+        for (k, d) in o.dest.iter().enumerate() {
+            let Some(d) = d else { continue };
+            let want_fake = c.fake.wrapping_add(16 * k as u64) | (c.fake & 1);
+            let forced = if k == 0 { c.boolean } else { None };
+            match forced {
+                None => {
+                    if d.kind != "branch" || d.value != Some(want_fake) {
+                        return rec.fail(&sig("wrong-destination"), format!("installation #{k}: followed from the entry {entry:#x}, control ends in {} {:x?}, the fake is {want_fake:#x}; trace {:?}; case {c:?}", d.kind, d.value, d.trace));
+                    }
+                    rec.class(&format!("{vname}/decoded-to-fake{}", if want_fake >> 32 != 0 { "/above-4GiB" } else { "" }));
+                }
+                Some(v) if c.variant != Variant::Arm => {
+                    if d.kind != "ret" || d.value.map(|x| x & 0xFF) != Some(v as u64) {
+                        return rec.fail(&sig("boolean-stub-wrong"), format!("forced boolean {v}: followed from the entry, control ends in {} {:x?}; trace {:?}; case {c:?}", d.kind, d.value, d.trace));
+                    }
+                    rec.class(&format!("{vname}/decoded-to-boolean-stub"));
+                }
+                Some(_) => {
+                    // 32-bit ARM branches to a helper of the library itself (a host address here)
+                    if d.kind != "branch" {
+                        return rec.fail(&sig("boolean-stub-wrong"), format!("forced boolean: the entry does not decode to a load and branch: trace {:?}; case {c:?}", d.trace));
+                    }
+                }
+            }
+            if d.touched_sp {
+                return rec.fail(&sig("touches-sp"), format!("sequence uses sp: {:?}", d.trace));
+            }
+            if c.variant == Variant::Arm64 {
+                for r in &d.written {
+                    if !((9..=17).contains(r) || (forced.is_some() && *r == 0)) {
+                        return rec.fail(&sig(&format!("clobbers=x{r}")), format!("sequence writes x{r}: {:?}", d.trace));
+                    }
                 }
             }
         }
